@@ -300,6 +300,8 @@ var trustedBase = []string{
 	"z3 4.8.12, z3 5.1.0 and cvc5 1.0 (raced per obligation)",
 	"Go memory safety: references read from memory were allocated earlier; slice headers are consistent; int is 64 bits (GOARCH=amd64)",
 	"package-level error variables are distinct non-nil values written only during package initialisation",
+	"size assumptions: fewer than 2^27 allocations per call, slice lengths and capacities at most 2^40; inputs do not alias package-level objects; interface calls dispatch over the repository's implementations only (closed world)",
+	"termination is proved for loops (variants) but not for recursion; concurrency is out of scope (the library is documented as not thread safe)",
 }
 
 func writeEvidence(path, prop, tier string, seed int, wall float64, funcs []string, samples []sample, violations int, cov map[string]interface{}, L *Loaded, extraAssume []string) {
